@@ -1,108 +1,114 @@
-import glob, os, re, subprocess, sys
-BASES=["f5f6197","6f2d858","b4d5c65","a464373","f8d5375","187367f"]; NEW=subprocess.run(["git","-C","/repo","rev-parse","HEAD"],capture_output=True,text=True).stdout.strip()
-WT="/tmp/rebase_wt"
-subprocess.run(["git","-C","/repo","worktree","remove","--force",WT],capture_output=True)
-subprocess.run(["git","-C","/repo","worktree","add","-q","--detach",WT,BASES[0]],check=True)
-pats=sorted(glob.glob("/verif/selftest/refactors/*.diff")+glob.glob("/verif/selftest/refactors_exotic/*.diff")+glob.glob("/verif/seeded/*/patch.diff"))
-rx=re.compile(r"\b(activations|input|gO)\.view\(")
-changed=0
-for p in pats:
-    # does it apply to NEW as is?
-    r=subprocess.run(["git","-C","/repo","apply","--check",p],capture_output=True,text=True)
-    if r.returncode==0:
-        continue
-    ok=False
-    for B in BASES:
-        subprocess.run(["git","-C",WT,"checkout","-q","--","."],check=True)
-        subprocess.run(["git","-C",WT,"clean","-fdq"],check=True)
-        subprocess.run(["git","-C",WT,"checkout","-q","--detach",B],check=True)
-        r=subprocess.run(["git","-C",WT,"apply",p],capture_output=True,text=True)
-        if r.returncode==0:
-            ok=True; break
-    if not ok:
-        print("CANNOT APPLY TO ANY BASE", p, r.stderr[:100]); continue
-    for f in ("optimum/quanto/library/qbytes_mm.py","optimum/quanto/tensor/qtensor_func.py"):
-        fp=os.path.join(WT,f)
-        s=open(fp).read()
-        # the same transformation as the two fix commits, wherever the patched text still flattens an operand with view()
-        s2=s
-        if f.endswith("qbytes_mm.py"):
-            s2=re.sub(r"\bactivations\.view\(", "activations.reshape(", s2)
-            s2=re.sub(r"\b(output_scales|scales)\.t\(\)", r"\1.flatten()", s2)
-        else:
-            s2=re.sub(r"\bgO\.view\((-1|\(-1)", r"gO.reshape(\1", s2)
-            s2=re.sub(r"\binput\.view\((-1|\(-1)", r"input.reshape(\1", s2)
-        if s2!=s: open(fp,"w").write(s2)
-    # fix a464373: the activation scale buffers take the constructor's dtype / device
-    fp=os.path.join(WT,"optimum/quanto/nn/qmodule.py")
-    L=open(fp).read().split("\n"); out=[]; done="scale_dtype, scale_device = " in "\n".join(L)
-    for l in L:
-        if not done and re.match(r'\s+(for scale_name\b|self\.register_buffer\("input_scale")', l):
-            ind=l[:len(l)-len(l.lstrip())]
-            out.append(ind+"# The scales are created with the dtype and device of the wrapped module parameters")
-            out.append(ind+'scale_dtype, scale_device = kwargs.get("dtype"), kwargs.get("device")')
-            done=True
-        if "register_buffer(" in l and "scale" in l:
-            l=re.sub(r"torch\.ones\((size=)?\(\)\)", lambda m: f"torch.ones({m.group(1) or ''}(), dtype=scale_dtype, device=scale_device)", l)
-        out.append(l)
-    open(fp,"w").write("\n".join(out))
-    # fix f8d5375: hook handles pushed on a per-instance stack
-    fp=os.path.join(WT,"optimum/quanto/calibrate.py")
-    c=open(fp).read()
-    if "self.hook_handles = []" not in c:
-        c=c.replace("        self.debug = debug\n","        self.debug = debug\n        # One pair of hook handles per entry: a mode object can be entered again while it is active\n        self.hook_handles = []\n",1)
-    c=re.sub(r"( +)self\.pre_handle = register_module_forward_pre_hook\(self\.calibrate_input\)\n +self\.post_handle = register_module_forward_hook\(self\.calibrate_output\)\n",
-             lambda m: f"{m.group(1)}self.hook_handles.append(\n{m.group(1)}    (\n{m.group(1)}        register_module_forward_pre_hook(self.calibrate_input),\n{m.group(1)}        register_module_forward_hook(self.calibrate_output),\n{m.group(1)}    )\n{m.group(1)})\n", c)
-    c=re.sub(r"( +)self\.pre_handle\.remove\(\)\n +self\.post_handle\.remove\(\)\n", lambda m: f"{m.group(1)}for handle in self.hook_handles.pop():\n{m.group(1)}    handle.remove()\n", c)
-    open(fp,"w").write(c)
-    # fix d3663f9 (neg saturates the lowest code) and 187367f (linear dequantizes operands scaled along the contraction)
-    fp=os.path.join(WT,"optimum/quanto/tensor/qbytes_ops.py")
-    c=open(fp).read()
-    i=c.find("def neg(")
-    if i>=0 and "The lowest integer code has no positive counterpart" not in c:
-        j=c.find("    out_data = op(input._data, *args, **kwargs)\n", i)
-        k=c.find("\ndef ", i+5)
-        if j>=0 and (k<0 or j<k):
-            c=c[:j]+"    # The lowest integer code has no positive counterpart: saturate it instead of letting its negation wrap around\n    data = torch.clamp(input._data, min=-torch.iinfo(input._data.dtype).max)\n    out_data = op(data, *args, **kwargs)\n"+c[j+len("    out_data = op(input._data, *args, **kwargs)\n"):]
-            open(fp,"w").write(c)
-    fp=os.path.join(WT,"optimum/quanto/tensor/qtensor_func.py")
-    c=open(fp).read()
-    old_="def linear(func, input, other, bias=None):\n    return QTensorLinear.apply(input, other, bias)"
-    if old_ in c:
-        c=c.replace(old_,"def linear(func, input, other, bias=None):\n    # The scales can only be applied to the output if they are not along the contracted dimension:\n    # the input must be quantized per-tensor and the weights per-tensor or along their first axis\n    if isinstance(input, QBytesTensor) and input.axis is not None:\n        input = input.dequantize()\n    if isinstance(other, QBytesTensor) and other.axis is not None and (other.ndim != 2 or other.axis != 0):\n        other = other.dequantize()\n    return QTensorLinear.apply(input, other, bias)")
-        open(fp,"w").write(c)
-    # fix ebb5816 (dense operands for the torch kernels) and 80052f0 (scale product in float32)
-    fp=os.path.join(WT,"optimum/quanto/library/qbytes_mm.py")
-    c=open(fp).read()
-    if "materialize expanded (stride 0) activations" not in c:
-        i=c.find("def qbytes_int_mm(")
-        j=c.find("    out_features = weights.shape[0]\n", i) if i>=0 else -1
-        if j>=0:
-            j+=len("    out_features = weights.shape[0]\n")
-            c=c[:j]+"    # torch._int_mm reads its first operand as a dense matrix: materialize expanded (stride 0) activations\n    activations = activations.contiguous()\n"+c[j:]
-    if "contiguous on their last dimension" not in c:
-        i=c.find("def qbytes_int8pack_mm(")
-        j=c.find("    output_scales = output_scales.flatten()\n", i) if i>=0 else -1
-        if j>=0:
-            j+=len("    output_scales = output_scales.flatten()\n")
-            c=c[:j]+"    # and activations that are contiguous on their last dimension\n    activations = activations.contiguous()\n"+c[j:]
-    open(fp,"w").write(c)
-    fp=os.path.join(WT,"optimum/quanto/tensor/qbytes_ops.py")
-    c=open(fp).read()
-    c=re.sub(r"( +)out_data = torch\._int_mm\(input\._data, other\._data\)\n", lambda m: f"{m.group(1)}# torch._int_mm reads dense matrices: materialize expanded (stride 0) operands\n{m.group(1)}out_data = torch._int_mm(input._data.contiguous(), other._data.contiguous())\n", c)
-    c=re.sub(r"( +)out_scale = \(input\._scale \* other\._scale\)\.to\(torch\.float32\)\n", lambda m: f"{m.group(1)}# The product of the scales is evaluated in float32: it can underflow in float16\n{m.group(1)}out_scale = input._scale.to(torch.float32) * other._scale.to(torch.float32)\n", c)
-    c=c.replace("fp32_output = (input._scale * other._scale).to(torch.float32) * out_data","fp32_output = input._scale.to(torch.float32) * other._scale.to(torch.float32) * out_data")
-    open(fp,"w").write(c)
-    fp=os.path.join(WT,"optimum/quanto/tensor/qtensor_func.py")
-    c=open(fp).read()
-    c=re.sub(r"( +)output = torch\.ops\.quanto\.qbytes_mm\(input\._data, other\._data, input\._scale \* other\._scale\)\n", lambda m: f"{m.group(1)}# The product of the scales is evaluated in float32: it can underflow in float16\n{m.group(1)}output_scales = input._scale.to(torch.float32) * other._scale.to(torch.float32)\n{m.group(1)}output = torch.ops.quanto.qbytes_mm(input._data, other._data, output_scales).to(input._scale.dtype)\n", c)
-    open(fp,"w").write(c)
-    subprocess.run(["git","-C",WT,"add","-A","-N"],check=True)
-    d=subprocess.run(["git","-C",WT,"diff",NEW,"--","."],capture_output=True,text=True).stdout
-    open(p,"w").write(d)
-    r=subprocess.run(["git","-C","/repo","apply","--check",p],capture_output=True,text=True)
-    print("rebased", p.replace("/verif/",""), "ok" if r.returncode==0 else "STILL FAILS "+r.stderr[:80])
-    changed+=1
-subprocess.run(["git","-C",WT,"checkout","-q","--","."]); subprocess.run(["git","-C",WT,"clean","-fdq"])
-subprocess.run(["git","-C","/repo","worktree","remove","--force",WT],capture_output=True)
-print("changed",changed)
+#!/usr/bin/env python3
+"""Rebase the kept patches (selftest/refactors*, seeded/*/patch.diff) onto /repo HEAD after a "fix:" commit.
+
+For every patch that no longer applies to HEAD: find the most recent commit of /repo's history it applies to, commit it there in a
+scratch worktree (outside /repo and /verif), cherry-pick every later commit of /repo on top (a real three-way merge), and write the
+difference to HEAD back as the patch.  Conflicts are resolved by keeping the patch's side and re-inserting the lines of the fix that
+carry one of the MARKERS below (the lines a fix adds); the result must parse, otherwise the patch is reported for a manual merge.
+A patch that REMOVES a marker line without adding it back is reported as well (it would revert a fix instead of preserving behaviour).
+Never run while selftest / run_seeded are running."""
+import ast, glob, os, re, subprocess, sys
+
+WT = "/tmp/rebase_wt"
+MARKERS = ("contiguous()", "materialize expanded", "contiguous on their last dimension", "to(torch.float32) * other._scale.to(torch.float32)",
+           "evaluated in float32", "reads dense matrices", ".detach()", "must not keep the graph", "hook_handles", "scale_dtype, scale_device",
+           "torch.clamp(input._data, min=-torch.iinfo", "lowest integer code", "input.axis is not None:", "other.axis is not None and (other.ndim != 2")
+
+
+def sh(*a, check=False):
+    return subprocess.run(a, capture_output=True, text=True, check=check)
+
+
+def git(*a, check=False):
+    return sh("git", "-C", WT, "-c", "user.name=x", "-c", "user.email=x@x", "-c", "core.editor=true", *a, check=check)
+
+
+def resolve(path):
+    s = open(path).read()
+
+    def rep(m):
+        ours, theirs = m.group(1), m.group(2)
+        ours_l = ours.split("\n")
+        add = []
+        for l in theirs.split("\n"):
+            if not any(k in l for k in MARKERS) or l in ours_l:
+                continue
+            # a fix that only appends a call to an existing statement (`x = e` -> `x = e.detach()`): append it to the patch's version
+            mm = re.match(r"(\s*)([\w.]+) = .*\.detach\(\)$", l)
+            if mm:
+                hit = [i for i, o in enumerate(ours_l) if re.match(r"\s*" + re.escape(mm.group(2)) + r" = ", o)]
+                if hit:
+                    for i in hit:
+                        if not ours_l[i].rstrip().endswith(".detach()") and ours_l[i].rstrip().endswith(")"):
+                            ours_l[i] = ours_l[i].rstrip() + ".detach()"
+                    continue
+            add.append(l)
+        return "\n".join(ours_l) + ("\n".join(add) + "\n" if add else "")
+    s2 = re.sub(r"<<<<<<< [^\n]*\n(.*?)=======\n(.*?)>>>>>>> [^\n]*\n", rep, s, flags=re.S)
+    open(path, "w").write(s2)
+    if path.endswith(".py"):
+        try:
+            ast.parse(s2)
+        except SyntaxError as e:
+            return f"syntax error after merge: {e}"
+    return None
+
+
+def main():
+    hist = sh("git", "-C", "/repo", "rev-list", "--first-parent", "-n", "40", "HEAD").stdout.split()
+    head = hist[0]
+    sh("git", "-C", "/repo", "worktree", "remove", "--force", WT)
+    sh("git", "-C", "/repo", "worktree", "add", "-q", "--detach", WT, head, check=True)
+    pats = sorted(glob.glob("/verif/selftest/refactors/*.diff") + glob.glob("/verif/selftest/refactors_exotic/*.diff") + glob.glob("/verif/seeded/*/patch.diff")) if len(sys.argv) < 2 else sys.argv[1:]
+    changed = 0
+    for p in pats:
+        if sh("git", "-C", "/repo", "apply", "--check", p).returncode == 0:
+            continue
+        base = None
+        for c in hist[1:]:
+            git("cherry-pick", "--abort")
+            git("checkout", "-q", "--", ".")
+            git("clean", "-fdq")
+            git("checkout", "-q", "--detach", c, check=True)
+            if git("apply", p).returncode == 0:
+                base = c
+                break
+        name = p.replace("/verif/", "")
+        if base is None:
+            print("CANNOT APPLY TO ANY OF THE LAST 40 COMMITS", name)
+            continue
+        git("add", "-A")
+        git("commit", "-qm", "patch", check=True)
+        later = list(reversed(hist[: hist.index(base)]))
+        problems = []
+        for c in later:
+            r = git("cherry-pick", c)
+            if r.returncode != 0:
+                for f in git("diff", "--name-only", "--diff-filter=U").stdout.split():
+                    err = resolve(os.path.join(WT, f))
+                    if err:
+                        problems.append(f"{f}: {err}")
+                git("add", "-A")
+                r2 = git("cherry-pick", "--continue")
+                if r2.returncode != 0:
+                    git("commit", "-qm", "merge", "--allow-empty")
+        d = git("diff", head, "HEAD", "--", ".").stdout
+        if problems:
+            print("MANUAL MERGE NEEDED", name, problems)
+            continue
+        open(p, "w").write(d)
+        ok = sh("git", "-C", "/repo", "apply", "--check", p).returncode == 0
+        removed = [l[1:].strip() for l in d.split("\n") if l.startswith("-") and not l.startswith("---") and any(k in l for k in MARKERS)]
+        added = "\n".join(l[1:] for l in d.split("\n") if l.startswith("+") and not l.startswith("+++"))
+        lost = [l for l in removed if not any(k in added for k in MARKERS if k in l)]
+        print("rebased", name, f"(from {base[:7]})", "ok" if ok else "STILL FAILS", ("REMOVES FIX LINES: " + "; ".join(lost)[:200]) if lost else "")
+        changed += 1
+    git("cherry-pick", "--abort")
+    git("checkout", "-q", "--", ".")
+    git("clean", "-fdq")
+    sh("git", "-C", "/repo", "worktree", "remove", "--force", WT)
+    print("changed", changed)
+
+
+if __name__ == "__main__":
+    main()
